@@ -124,6 +124,9 @@ fn parse_args() -> Cfg {
 fn main() {
     let cfg = parse_args();
     exec::install_panic_hook();
+    if cfg.shard.1 > 1 && cfg.property != "C02" {
+        let _ = util::SHARD.set(cfg.shard);
+    }
     if let Some(path) = &cfg.out {
         let _ = util::OUT_PATH.set(path.clone());
     }
